@@ -29,7 +29,25 @@ def stepLine (prop : String) (rs : RunSt) (line : String) (impl : Option Outcome
       -- disagreements by the caller, but both sides are still in corresponding states as far as
       -- "which operations took effect" goes); it goes silent once a status differs
       let stateOp := ["tx", "deliver", "cb", "deploy"].contains f
-      let div := if f == "reset" then false else rs.diverged || (stateOp && !(statusAgree impl o))
+      -- resynchronisation: when the implementation REJECTED an operation the model accepts, the
+      -- implementation's state is its old state (revert on failure is a VM guarantee), so the model
+      -- is put in the corresponding state — the failure path of the same operation — and the judge
+      -- stays on.  (The operation itself is still reported as a disagreement.)
+      let implFailed := match impl with | some .fail => true | _ => false
+      let modelOk := match o with | .fail => false | .nopending => false | _ => true
+      let resync := stateOp && implFailed && modelOk
+      let d' : DState := if !resync then d' else
+        match fields with
+        | ["cb", id] =>
+          (match id.toNat? with
+           | some n => { rs.d with world := { rs.d.world with pending := rs.d.world.pending.filter (·.desc.id != n) } }
+           | none => rs.d)
+        | "deliver" :: id :: _ =>
+          (match id.toNat? with
+           | some n => { rs.d with world := { rs.d.world with pending := World.setResult rs.d.world.pending n (false, []) } }
+           | none => rs.d)
+        | _ => rs.d
+      let div := if f == "reset" then false else rs.diverged || (stateOp && !resync && !(statusAgree impl o))
       -- the ghost history survives the model step (worldOp keeps unknown fields) and is updated
       -- from the implementation's outcome
       let d'' := if f == "reset" then d' else
